@@ -37,6 +37,7 @@ var (
 	ErrUnknownResultType = errors.New("unknown result type")
 
 	ErrTableExists             = errors.New("table already exists")
+	ErrInvalidTableName        = errors.New("invalid table name")
 	ErrManagerClosed           = errors.New("manager closed")
 	ErrLeaseNotAcquired        = errors.New("lease not acquired")
 	ErrNodeHostInfoUnavailable = errors.New("nodehost info unavailable")
